@@ -118,7 +118,7 @@ def _int_to_index(
     """
     indices = enum_class.indices
     values = numpy.asarray(value)
-    return values[values < indices.size].astype(t.EnumDType)
+    return values[(values >= 0) & (values < indices.size)].astype(t.EnumDType)
 
 
 def _str_to_index(
